@@ -45,6 +45,7 @@ type Frame struct {
 	region  *regionSpec
 	stopAt  *ssa.BasicBlock // commutativity mode: stop the walk after establishing this loop header
 	stopped bool
+	regex   map[ssa.Value]string // values produced by regexp.MustCompile(<constant>): their RegLan term
 }
 
 // regionSpec restricts encodeBody to one iteration of a map-range loop (commutativity obligations).
